@@ -7,6 +7,8 @@ import (
 	"fmt"
 	"sort"
 	"strconv"
+	"sync"
+	"time"
 
 	"github.com/gordian-engine/gordian/internal/zzverif/vx"
 )
@@ -15,38 +17,56 @@ func init() {
 	registry.Checks["C13"] = checkC13
 }
 
-// bounds of one tier for one scheme. A zero means "family not run for that n".
+// bounds of one tier for one scheme: the largest key-set size n for which a family is run (0 = not run).
 type bounds struct {
-	seqDepth3  int // sequences of length <= 3 over the full alphabet for n <= this
-	seqDepth2  int // sequences of length <= 2 for n <= this (beyond seqDepth3)
-	corPre2    int // corrupted offers after every base sequence of length 2 for n <= this
-	corPre1    int // ... after every base sequence of length 1 for n <= this
-	corPre0    int // ... on receivers holding nothing / the offer's own keys / every key (built both ways) for n <= this
-	clonePre2  int
-	clonePre1  int
-	finPart    int // every partition through Finalize/ValidateFinalizedProof for n <= this
-	finMuts    int // ... and every listed mutation of every such finalized proof for n <= this
-	finOver    int // every assignment with double signers for n <= this (BLS: observation only)
-	seqTarget  int // sequences per shard
-	finTarget  int // assignments per shard
-	corTarget  int // corrupted offers per shard
+	seqDepth3 int // every operation sequence of length <= 3 over the full alphabet
+	seqDepth2 int // ... of length <= 2 (for n beyond seqDepth3)
+	seqDepth1 int // ... of length 1 (for n beyond seqDepth2)
+	corPre2   int // every corrupted offer after every base sequence of length 2
+	corPre1   int // ... after every base sequence of length 1 (for n beyond corPre2)
+	corPre0   int // ... on receivers holding nothing / the offer's own keys / every key, built both ways (for n beyond corPre1)
+	clonePre2 int // Clone/Derive after every base sequence of length 2, then every operation on either side
+	clonePre1 int // ... after every base sequence of length 1 (for n beyond clonePre2)
+	finPart   int // every partition of the keys over absent/main/rest-a/rest-b through Finalize and ValidateFinalizedProof
+	finMuts   int // ... and every listed mutation of every such finalized proof
+	finOver   int // every assignment with at least one double signer (BLS: observation only)
+
+	// cases per shard, so that a shard takes a few seconds at most
+	seqShard, corShard, cloneShard, finShard, finMutShard, overShard int
 }
 
 func tierBounds(quick bool, scheme string) bounds {
+	var b bounds
 	if scheme == "simple" {
+		b = bounds{seqShard: 6000, corShard: 5000, cloneShard: 5000, finShard: 1024, finMutShard: 24, overShard: 2048}
 		if quick {
-			return bounds{seqDepth3: 4, seqDepth2: 5, corPre2: 2, corPre1: 4, corPre0: 5, clonePre2: 2, clonePre1: 5, finPart: 5, finMuts: 4, finOver: 4,
-				seqTarget: 8000, finTarget: 64, corTarget: 4000}
+			b.seqDepth3, b.seqDepth2, b.seqDepth1 = 4, 5, 7
+			b.corPre2, b.corPre1, b.corPre0 = 2, 4, 5
+			b.clonePre2, b.clonePre1 = 2, 5
+			b.finPart, b.finMuts, b.finOver = 5, 4, 4
+		} else {
+			b.seqDepth3, b.seqDepth2, b.seqDepth1 = 5, 7, 7
+			b.corPre2, b.corPre1, b.corPre0 = 3, 6, 7
+			b.clonePre2, b.clonePre1 = 4, 7
+			b.finPart, b.finMuts, b.finOver = 7, 6, 5
 		}
-		return bounds{seqDepth3: 5, seqDepth2: 7, corPre2: 4, corPre1: 6, corPre0: 7, clonePre2: 4, clonePre1: 7, finPart: 7, finMuts: 6, finOver: 5,
-			seqTarget: 30000, finTarget: 256, corTarget: 8000}
+		return b
 	}
+	// BLS: about 1 ms per pairing check, so the bounds are smaller (the alphabet is also twice as large:
+	// offers are built leaf by leaf and in aggregated form).
+	b = bounds{seqShard: 500, corShard: 500, cloneShard: 500, finShard: 64, finMutShard: 12, overShard: 256}
 	if quick {
-		return bounds{seqDepth3: 3, seqDepth2: 4, corPre2: 0, corPre1: 3, corPre0: 4, clonePre2: 0, clonePre1: 3, finPart: 5, finMuts: 4, finOver: 3,
-			seqTarget: 1200, finTarget: 16, corTarget: 600}
+		b.seqDepth3, b.seqDepth2, b.seqDepth1 = 3, 4, 7
+		b.corPre2, b.corPre1, b.corPre0 = 0, 3, 4
+		b.clonePre2, b.clonePre1 = 0, 3
+		b.finPart, b.finMuts, b.finOver = 5, 4, 3
+	} else {
+		b.seqDepth3, b.seqDepth2, b.seqDepth1 = 4, 6, 7
+		b.corPre2, b.corPre1, b.corPre0 = 2, 4, 6
+		b.clonePre2, b.clonePre1 = 2, 4
+		b.finPart, b.finMuts, b.finOver = 7, 6, 4
 	}
-	return bounds{seqDepth3: 4, seqDepth2: 7, corPre2: 2, corPre1: 4, corPre0: 7, clonePre2: 3, clonePre1: 5, finPart: 7, finMuts: 6, finOver: 4,
-		seqTarget: 4000, finTarget: 64, corTarget: 1500}
+	return b
 }
 
 type plannedJob struct {
@@ -62,29 +82,46 @@ func pow(b, e int) int {
 	return r
 }
 
+func ranges(total, chunk int, f func(lo, hi int)) {
+	if chunk < 1 {
+		chunk = 1
+	}
+	for lo := 0; lo < total; lo += chunk {
+		hi := lo + chunk
+		if hi > total {
+			hi = total
+		}
+		f(lo, hi)
+	}
+}
+
 func checkC13(c *vx.Ctx) {
 	c.Level = "exploration"
 	c.Rule = "bounded exhaustive enumeration on the real proof schemes (ed25519 simple scheme and BLS min-sig): " +
-		"(seq) every sequence of Merge/MergeSparse/AddSignature operations up to the stated length over every signer subset and every way of building the offer, checked step by step against the harness's own set model and flag rules, followed by the sparse round trip; " +
+		"(seq) every sequence of Merge/MergeSparse/AddSignature operations up to the stated length over every signer subset and every way of building the offer, checked step by step against the harness's own set model and flag rules, followed by the sparse round trip and a repetition of the last operation; " +
 		"(cor) every single-entry corruption of every sparse offer after every state-establishing sequence; (clone) Clone/Derive followed by every operation on either side; " +
 		"(fin) every assignment of keys to main/rest blocks through Finalize and ValidateFinalizedProof plus every listed mutation of the finalized proof. " +
 		"evaluations = law-checked cases (one sequence, one corrupted offer, one clone case, one finalize round trip or one mutated finalized proof). " +
 		"A case is non-trivial when at least one signature was offered and the signer set changed or an invalid offer had to be refused; distinct_nontrivial counts distinct (scheme, n, family, resulting signer sets / op kinds / corruption kind) classes"
+	// Shards are a few seconds long; the generous per-job wall only matters on an overloaded machine.
+	c.Pool.JobWall = 10 * time.Minute
 	var plan []plannedJob
 	extra := map[string]any{}
+	itoa := strconv.Itoa
 	for _, scheme := range []string{"bls", "simple"} {
 		b := tierBounds(c.Quick(), scheme)
 		extra[scheme] = map[string]int{
-			"seq_len3_max_n": b.seqDepth3, "seq_len2_max_n": b.seqDepth2, "corrupt_after_len2_max_n": b.corPre2, "corrupt_after_len1_max_n": b.corPre1, "corrupt_on_empty_own_full_receivers_max_n": b.corPre0,
-			"clone_after_len2_max_n": b.clonePre2, "clone_after_len1_max_n": b.clonePre1, "finalize_partitions_max_n": b.finPart, "finalized_mutations_max_n": b.finMuts, "finalize_double_signers_max_n": b.finOver,
+			"seq_len3_max_n": b.seqDepth3, "seq_len2_max_n": b.seqDepth2, "seq_len1_max_n": b.seqDepth1,
+			"corrupt_after_len2_max_n": b.corPre2, "corrupt_after_len1_max_n": b.corPre1, "corrupt_on_empty_own_full_receivers_max_n": b.corPre0,
+			"clone_after_len2_max_n": b.clonePre2, "clone_after_len1_max_n": b.clonePre1,
+			"finalize_partitions_max_n": b.finPart, "finalized_mutations_max_n": b.finMuts, "finalize_double_signers_max_n": b.finOver,
 		}
-		// unit costs (seconds per case, rough, only for ordering and shard sizes)
-		unit := 0.0004
+		// rough seconds per case, only used to start the expensive shards first
+		unit := 0.0006
 		if scheme == "bls" {
-			unit = 0.006
+			unit = 0.005
 		}
-		maxN := 7
-		for n := 1; n <= maxN; n++ {
+		for n := 1; n <= 7; n++ {
 			fx, err := newFixture(scheme, n)
 			if err != nil {
 				c.HarnessError(err.Error())
@@ -92,122 +129,80 @@ func checkC13(c *vx.Ctx) {
 			}
 			K := len(fx.baseOps())
 			NC := len(fx.corruptOps())
-			args := func(fam string, kv ...string) map[string]string {
-				m := map[string]string{"fam": fam, "scheme": scheme, "n": strconv.Itoa(n)}
+			add := func(cost float64, fam string, kv ...string) {
+				m := map[string]string{"fam": fam, "scheme": scheme, "n": itoa(n)}
 				for i := 0; i+1 < len(kv); i += 2 {
 					m[kv[i]] = kv[i+1]
 				}
-				return m
+				plan = append(plan, plannedJob{vx.Job{Exec: "c13", Args: m}, cost * unit * (1 + float64(n)/4)})
 			}
 			// seq
-			depth := 0
-			if n <= b.seqDepth3 {
-				depth = 3
-			} else if n <= b.seqDepth2 {
-				depth = 2
-			}
-			if depth > 0 {
-				perB := 1
-				if depth == 3 {
-					perB = K + 1
-				}
-				chunk := b.seqTarget / perB
-				if chunk < 1 {
-					chunk = 1
-				}
-				if depth == 2 {
-					chunk = K
-				}
+			switch {
+			case n <= b.seqDepth3:
 				for a := 0; a < K; a++ {
-					for b0 := 0; b0 < K; b0 += chunk {
-						b1 := b0 + chunk
-						if b1 > K {
-							b1 = K
-						}
-						plan = append(plan, plannedJob{vx.Job{Exec: "c13", Args: args("seq", "depth", strconv.Itoa(depth), "a", strconv.Itoa(a), "b0", strconv.Itoa(b0), "b1", strconv.Itoa(b1))},
-							unit * float64((b1-b0)*perB)})
-					}
+					ranges(K, b.seqShard/(K+1), func(lo, hi int) {
+						add(float64((hi-lo)*(K+1)), "seq", "depth", "3", "a0", itoa(a), "a1", itoa(a+1), "b0", itoa(lo), "b1", itoa(hi))
+					})
 				}
+			case n <= b.seqDepth2:
+				for a := 0; a < K; a++ {
+					ranges(K, b.seqShard, func(lo, hi int) {
+						add(float64(hi-lo), "seq", "depth", "2", "a0", itoa(a), "a1", itoa(a+1), "b0", itoa(lo), "b1", itoa(hi))
+					})
+				}
+			case n <= b.seqDepth1:
+				ranges(K, b.seqShard, func(lo, hi int) {
+					add(float64(hi-lo), "seq", "depth", "1", "a0", itoa(lo), "a1", itoa(hi))
+				})
 			}
 			// cor
-			pre := 0
-			if n <= b.corPre2 {
-				pre = 2
-			} else if n <= b.corPre1 {
-				pre = 1
-			}
-			if pre == 0 && n <= b.corPre0 {
-				chunk := b.corTarget / 6
-				for c0 := 0; c0 < NC; c0 += chunk {
-					c1 := c0 + chunk
-					if c1 > NC {
-						c1 = NC
-					}
-					plan = append(plan, plannedJob{vx.Job{Exec: "c13", Args: args("cor", "pre", "0", "c0", strconv.Itoa(c0), "c1", strconv.Itoa(c1))}, unit * float64(6*(c1-c0))})
-				}
-			}
-			if pre > 0 {
-				states := 1
-				if pre == 2 {
-					states = K
-				}
-				chunk := b.corTarget / states
-				if chunk < 1 {
-					chunk = 1
-				}
+			switch {
+			case n <= b.corPre2:
 				for a := 0; a < K; a++ {
-					for c0 := 0; c0 < NC; c0 += chunk {
-						c1 := c0 + chunk
-						if c1 > NC {
-							c1 = NC
-						}
-						plan = append(plan, plannedJob{vx.Job{Exec: "c13", Args: args("cor", "pre", strconv.Itoa(pre), "a", strconv.Itoa(a), "c0", strconv.Itoa(c0), "c1", strconv.Itoa(c1))},
-							unit * float64(states*(c1-c0))})
-					}
+					ranges(NC, b.corShard/K, func(lo, hi int) {
+						add(float64((hi-lo)*K), "cor", "pre", "2", "a", itoa(a), "c0", itoa(lo), "c1", itoa(hi))
+					})
 				}
-			}
-			// clone
-			pre = 0
-			if n <= b.clonePre2 {
-				pre = 2
-			} else if n <= b.clonePre1 {
-				pre = 1
-			}
-			if pre > 0 {
-				states := 1
-				if pre == 2 {
-					states = K
-				}
+			case n <= b.corPre1:
 				for a := 0; a < K; a++ {
-					plan = append(plan, plannedJob{vx.Job{Exec: "c13", Args: args("clone", "pre", strconv.Itoa(pre), "a", strconv.Itoa(a))}, unit * float64(states*K*4)})
+					ranges(NC, b.corShard, func(lo, hi int) {
+						add(float64(hi-lo), "cor", "pre", "1", "a", itoa(a), "c0", itoa(lo), "c1", itoa(hi))
+					})
+				}
+			case n <= b.corPre0:
+				ranges(NC, b.corShard/6, func(lo, hi int) {
+					add(float64((hi-lo)*6), "cor", "pre", "0", "c0", itoa(lo), "c1", itoa(hi))
+				})
+			}
+			// clone: 2 (Clone/Derive) x K ops x 2 sides cases per state
+			switch {
+			case n <= b.clonePre2:
+				for a := 0; a < K; a++ {
+					ranges(K, b.cloneShard/(4*K), func(lo, hi int) {
+						add(float64((hi-lo)*4*K), "clone", "pre", "2", "a", itoa(a), "b0", itoa(lo), "b1", itoa(hi))
+					})
+				}
+			case n <= b.clonePre1:
+				for a := 0; a < K; a++ {
+					add(float64(4*K), "clone", "pre", "1", "a", itoa(a))
 				}
 			}
 			// fin
 			if n <= b.finPart {
-				total := pow(4, n)
-				for lo := 0; lo < total; lo += b.finTarget {
-					hi := lo + b.finTarget
-					if hi > total {
-						hi = total
-					}
-					muts, w := "0", 4.0
-					if n <= b.finMuts {
-						muts, w = "1", 60.0
-					}
-					plan = append(plan, plannedJob{vx.Job{Exec: "c13", Args: args("fin", "mode", "part", "muts", muts, "lo", strconv.Itoa(lo), "hi", strconv.Itoa(hi))},
-						unit * w * float64(hi-lo)})
+				if n <= b.finMuts {
+					ranges(pow(4, n), b.finMutShard, func(lo, hi int) {
+						add(float64(hi-lo)*40, "fin", "mode", "part", "muts", "1", "lo", itoa(lo), "hi", itoa(hi))
+					})
+				} else {
+					ranges(pow(4, n), b.finShard, func(lo, hi int) {
+						add(float64(hi-lo)*6, "fin", "mode", "part", "muts", "0", "lo", itoa(lo), "hi", itoa(hi))
+					})
 				}
 			}
-			if n <= b.finOver && n >= 1 {
-				total := pow(8, n)
-				step := b.finTarget * 20
-				for lo := 0; lo < total; lo += step {
-					hi := lo + step
-					if hi > total {
-						hi = total
-					}
-					plan = append(plan, plannedJob{vx.Job{Exec: "c13", Args: args("fin", "mode", "over", "lo", strconv.Itoa(lo), "hi", strconv.Itoa(hi))}, unit * 3 * float64(hi-lo)})
-				}
+			if n <= b.finOver {
+				ranges(pow(8, n), b.overShard, func(lo, hi int) {
+					add(float64(hi-lo)*3, "fin", "mode", "over", "lo", itoa(lo), "hi", itoa(hi))
+				})
 			}
 		}
 	}
@@ -218,55 +213,67 @@ func checkC13(c *vx.Ctx) {
 		jobs[i] = plan[i].job
 	}
 
-	// Run in slices so that the internal deadline can stop the run between them.
+	// Submit one by one so that the internal deadline can stop the run at any shard boundary.
 	outcomes := map[string]int64{}
 	samples := map[string]string{}
+	sampleRank := map[string]int{}
 	famMs := map[string]int64{} // worker milliseconds per family (informative only, not used by any oracle)
-	done := 0
-	batch := 64 * 16
-	for done < len(jobs) {
+	results := make([]vx.Result, len(jobs))
+	var wg sync.WaitGroup
+	submitted := 0
+	for i := range jobs {
 		if c.OverBudget() {
-			c.Cap(fmt.Sprintf("%d of %d shards not run", len(jobs)-done, len(jobs)))
+			c.Cap(fmt.Sprintf("%d of %d shards not run", len(jobs)-i, len(jobs)))
 			break
 		}
-		end := done + batch
-		if end > len(jobs) {
-			end = len(jobs)
+		i := i
+		jobs[i].ID = i
+		wg.Add(1)
+		submitted++
+		c.Pool.Submit(jobs[i], func(r vx.Result) {
+			results[i] = r
+			wg.Done()
+		})
+	}
+	wg.Wait()
+	for i := 0; i < submitted; i++ {
+		r, job := results[i], jobs[i]
+		if r.Crash != "" {
+			// A crash that recover() cannot catch (cgo fault, fatal error): "never panics" is violated all the same.
+			c.Violate(vx.Violation{Prop: "C13", Sig: "worker-" + vx.CrashSig(r.Crash) + ":" + job.Args["scheme"] + ":" + job.Args["fam"],
+				Msg: "worker process died while running shard " + fmt.Sprint(job.Args) + "\n" + r.Crash}, job)
 		}
-		part := jobs[done:end]
-		rs := c.Pool.Map(part)
-		for i, r := range rs {
-			if r.Crash != "" {
-				// A crash that recover() cannot catch (cgo fault, fatal error): "never panics" is violated all the same.
-				c.Violate(vx.Violation{Prop: "C13", Sig: "worker-" + vx.CrashSig(r.Crash) + ":" + part[i].Args["scheme"] + ":" + part[i].Args["fam"],
-					Msg: "worker process died while running shard " + fmt.Sprint(part[i].Args) + "\n" + r.Crash}, part[i])
-			}
-			for _, k := range r.Keys {
-				c.NonTrivial(k)
-			}
-			r.Keys = nil
-			if len(r.Obs) > 0 {
-				var obs struct {
-					Outcomes map[string]int64 `json:"outcomes"`
-					Sample   string           `json:"sample"`
-					Ms       int64            `json:"ms"`
-				}
-				if json.Unmarshal(r.Obs, &obs) == nil {
-					for k, v := range obs.Outcomes {
-						outcomes[k] += v
-					}
-					fam := part[i].Args["scheme"] + "/" + part[i].Args["fam"]
-					famMs[fam+"/n="+part[i].Args["n"]] += obs.Ms
-					if obs.Sample != "" && samples[fam] == "" {
-						samples[fam] = obs.Sample
-					}
-				}
-			}
-			r.Outcome = ""
-			r.NonTrivial = false
-			c.Absorb(part[i], r)
+		for _, k := range r.Keys {
+			c.NonTrivial(k)
 		}
-		done = end
+		r.Keys = nil
+		if len(r.Obs) > 0 {
+			var obs struct {
+				Outcomes map[string]int64 `json:"outcomes"`
+				Sample   string           `json:"sample"`
+				Good     bool             `json:"sample_good"`
+				Ms       int64            `json:"ms"`
+			}
+			if json.Unmarshal(r.Obs, &obs) == nil {
+				for k, v := range obs.Outcomes {
+					outcomes[k] += v
+				}
+				fam := job.Args["scheme"] + "/" + job.Args["fam"]
+				famMs[fam+"/n="+job.Args["n"]] += obs.Ms
+				// keep the most telling sample per family: every step changed the signer set, then the longest
+				rank := len(obs.Sample)
+				if obs.Good {
+					rank += 1 << 20
+				}
+				if obs.Sample != "" && rank > sampleRank[fam] {
+					samples[fam] = obs.Sample
+					sampleRank[fam] = rank
+				}
+			}
+		}
+		r.Outcome = ""
+		r.NonTrivial = false
+		c.Absorb(job, r)
 	}
 	for _, k := range vx.SortedKeys(outcomes) {
 		for i := int64(0); i < 1; i++ {
